@@ -176,7 +176,9 @@ func target(r *vc.Rand) (method, url string, hasBody bool) {
 		path = strings.Replace(path, "%s", r.Pick(pathVals), 1)
 	}
 	if r.Chance(10) {
-		path = r.Pick([]string{"/", "//", "/v1", "/v1/all/", "/nope", "/v1/all:verb", "/%zz", "/v1/%2e%2e/all", "*", "/v1/all?", "/v1/items/1"})
+		path = r.Pick([]string{"/", "//", "/v1", "/v1/all/", "/nope", "/v1/all:verb", "/%zz", "/v1/%2e%2e/all", "*", "/v1/all?", "/v1/items/1",
+			// absolute-form request targets (RFC 9112 3.2.2): the handler sees an EMPTY path for the first two
+			"http://x", "http://x?a=b", "http://x/v1/all", "HTTP://X:80", "http://x/"})
 	}
 	if r.Chance(10) {
 		method = r.Pick([]string{"GET", "POST", "PUT", "DELETE", "PATCH", "X", "get"})
